@@ -1129,6 +1129,18 @@ def bounded(payload):
         if nontrivial:
             distinct.add(key)
 
+    # 0. self-dependent updates of tagged names next to user variables spelled like the sanitised temporaries
+    #    (temp_<name with < > replaced by _>): the generated name must still be new
+    for tagged, look in (("<state>s", "temp__state_s"), ("<p>b", "temp__p_b"), ("<cond>c", "temp__cond_c"),
+                         ("x", "temp_x"), ("<state>s", "temp__state_s_0")):
+        for mode in ("flat", "ast"):
+            for cond in (None, ["<", V("y"), ["c", 2]]):
+                consider({"mode": mode, "valseed": 5, "nvals": 4, "stmts": [
+                    {"id": "s0", "k": "assign", "lhs": tagged, "sub": None,
+                     "rhs": ["+", V(tagged), ["*", V(look), ["c", 2]]], "cond": cond, "loops": []},
+                    {"id": "temp", "k": "assign", "lhs": "x2", "sub": None, "rhs": ["+", V(look), V(tagged)],
+                     "cond": None, "loops": []}]})
+                parts["lookalike_self_dependency_programs"] += 1
     # 1. exhaustive family: expression shapes up to `depth` x statement forms x colliding leaf names
     tpls = shapes(depth)
     parts["shape_templates"] = len(tpls)
@@ -1182,7 +1194,8 @@ def bounded(payload):
         if r.get("fails"):
             known_hits.append("%s: %s" % (e["id"], e["what"]))
     return {"evaluations": evals, "distinct_nontrivial": len(distinct),
-            "rule": "family: %d expression templates (depth<=%d over +, f(.), g(.,.), If(L<2 | f(L)<2, ., .)) x %d "
+            "rule": "20 self-dependent updates of tagged names beside user variables spelled like the sanitised "
+                    "temporaries; family: %d expression templates (depth<=%d over +, f(.), g(.,.), If(L<2 | f(L)<2, ., .)) x %d "
                     "statement forms (plain, flag-guarded pair, lhs subscript `tmp`, loops bounded by `temp_x`/`tmp`, "
                     "statement-level call, comparison-guarded) x %d leaf-name sets (names colliding with generated "
                     "ones), every %d-th member; then seeded random programs (1-4 statements, expression depth 3, "
